@@ -759,6 +759,16 @@ def _check(run, replay):
         tr_ok = not problems
         run.oblige("translator:presets+constants (fail-closed)", tr_ok, "; ".join(problems)[:1500])
         if tr_ok:
+            unread = (tr.get("constants") or {}).get("unread", {})
+            run.cov["glue_constants_read_from_source"] = {
+                "keep rule": "keep rule" not in unread, "numeric parse (get_vals)": "numeric parse (get_vals)" not in unread,
+                "separator": "separator" not in unread}
+            for item, why in unread.items():
+                # an unrecognised SHAPE of glue is not an alarm: the correspondence decides (boundary columns at exactly
+                # 80 % / 75 %, 1 and 2 distinct values, empty / quoted cells and preset lists are in every run); a
+                # recognised shape with other operators / constants breaks C12_keep / C12_parse3 instead
+                run.notes.append("translator: %s not recognised in the source (%s); its constants are held by the "
+                                 "correspondence only in this run" % (item, why[:300]))
             changed = TP.write(tr)
             run.notes.append("translator: %s" % ("rewrote " + ", ".join(changed) if changed else "generated files unchanged"))
         else:
